@@ -320,7 +320,9 @@ fn bytes_part(args: &Args, rep: &Report, budget: Duration) {
                     let (_, reference) = format_to_vec(&mut cfg.build(), &e);
                     let total = reference.len();
                     // every k in 1..L as the size accepted by the first write (vectored and plain)
-                    let step = if is_miri() { (total / 4).max(1) } else { 1 };
+                    // (records of tens of KiB - wide entries - would make this quadratic pass take tens of
+                    // minutes under ASan: above 1500 bytes, 1500 evenly spaced sizes)
+                    let step = if is_miri() { (total / 4).max(1) } else { (total / 1500).max(1) };
                     for vectored in [true, false] {
                         let mut k = 1;
                         while k <= total {
@@ -667,7 +669,7 @@ fn main() {
     let args = Args::parse();
     let rep = Report::new("C16", &args);
     rep.rule(
-        "bytes: record shapes single / 3 namespaces / split into 2-4 lines; for each record every k in 1..L as the size accepted by the first write_vectored \
+        "bytes: record shapes single / 3 namespaces / split into 2-4 lines; for each record every k in 1..L (above 1500 bytes: 1500 evenly spaced k) as the size accepted by the first write_vectored \
          (and by a plain-write-only writer), then random scripts mixing short writes, Interrupted, Ok(0), hard error at call j; oracle: no hard error => Ok and \
          received bytes = concatenation of a permutation of the reference lines; Ok(0)/hard error => Io error, received bytes are a prefix of such a concatenation, \
          and the next entry on the same formatter is complete. sinks: BackgroundQueue / FlushImmediately (typed, boxed, any) / tee over scripted streams returning \
